@@ -1008,3 +1008,7 @@ def run(ctx):
     rule_g(ctx)
     rule_h(ctx)
     ctx.assume('crypto::PacketKey / HeaderKey / Session implementations are a component boundary (forgery resistance of the AEAD is not analysed)')
+    # obligations shared with a sibling property (evaluated by the owning module, reported here under letter x)
+    from engine.rulelib import share as _share
+    _share(ctx, 'C17', 'rule_d', 'x', 'parameters remembered for 0-RTT are blanked where they must not be trusted: a stale stateless-reset token would let a token not issued for the CID in use end the connection')
+
